@@ -693,7 +693,9 @@ fn render_lexer(variant: usize, ntoks: usize, comments: bool) -> String {
         s.push_str(&format!("{} \"t{}\"\n", tab[t].0, t));
     }
     if comments {
-        s.push_str("<COMMENT,INITIAL>/\\* <+COMMENT>;\n<COMMENT>\\*/ <-COMMENT>;\n<COMMENT>[^*/]+ ;\n<COMMENT>[*/] ;\n");
+        // `!` inside a comment: a rule active in COMMENT only that names COMMENT as its (plain) target — not a
+        // no-op: a plain target replaces the whole stack of start states, so nested comments end at once
+        s.push_str("<COMMENT,INITIAL>/\\* <+COMMENT>;\n<COMMENT>\\*/ <-COMMENT>;\n<COMMENT>! <COMMENT>;\n<COMMENT>[^*/!]+ ;\n<COMMENT>[*/] ;\n");
     }
     if variant == 5 {
         s.push_str("%.* ;\n");
@@ -837,7 +839,7 @@ fn render_input(toks: &[usize], variant: usize, comments: bool, rng: &mut Rng) -
         }
         if comments && rng.chance(1, 8) {
             // plain, nested (the opening rule is reached while COMMENT is active) and doubly nested
-            s.push_str(*rng.pick(&["/* c * / */ ", "/* c * / */ ", "/* x /* y */ z */ ", "/* /* /* */ */ w */ "]));
+            s.push_str(*rng.pick(&["/* c * / */ ", "/* c * / */ ", "/* x /* y */ z */ ", "/* /* /* */ */ w */ ", "/* x /* y ! */ ", "/* /* ! /* q */ */ "]));
         }
         s.push_str(*rng.pick(&tab[*t].1));
     }
